@@ -38,7 +38,8 @@ TRUSTED = [
     "phase/sqrt/arctan2; cannot follow from the specifications above, which fix angles only mod 2 pi) - validated for k = 1..40",
     "real and complex analysis of Coq's standard library + Coquelicot (classical reals); IEEE round-off, Qobj.isunitary tolerance "
     "and conditioning near 1e-12 are not modelled (numeric oracle only)",
-    "QFT = DFT is proved for N <= 5 only (symbolic computation, resolution pi/16); N = 6..9 numerically in this harness",
+    "QFT = DFT is proved for ALL N by induction (Proofs/QftGen.v) over the complex semantics of the MODEL's gate list; additionally "
+    "re-proved for N <= 5 by symbolic table computation; the running code is compared with the DFT numerically for N <= 7/9",
 ]
 ASSUMES = ["U ranges over all complex 2x2 matrices with U^dagger U = 1 (exactly)",
            "angles of QFT gates are the exact reals n*pi/2^d"]
@@ -453,8 +454,10 @@ def correspond(ctx):
         for fn in sorted(os.listdir(cdir)):
             rec = json.load(open(os.path.join(cdir, fn)))
             inp = rec.get("input", rec)
-            if inp.get("kind") == "decompose" and inp.get("method") in methods:
-                check_decompose(corr, ctx, "corpus", dec_u(inp["U"]), inp["method"], methods, angles_ex)
+            if inp.get("kind") == "decompose":
+                for m in METHODS:
+                    if m in methods:
+                        check_decompose(corr, ctx, "corpus", dec_u(inp["U"]), m, methods, angles_ex)
     # QFT: every configuration
     for N in Ns:
         for sw in (True, False):
